@@ -31,6 +31,8 @@ RULE = ("cases: (a) end-to-end: abstract dataclass trees (1-5 fields, optional n
         "missing/None/value) each rendered in 6 annotation styles (typing, builtin, PEP 604, postponed text of each) x {flat, 2-3 level chain "
         "(sometimes re-declaring a field)} x {module scope, function scope with the parse inside the defining call}, plus "
         "the chain split over TWO modules (bases in one, the derived class and the classes only it mentions in the other) "
+        "and over ONE MODULE PER CLASS (2-3 modules, each enum / nested class defined in the root-most, middle or leaf "
+        "module that first needs it) "
         "= 30 real module sets; enums are the framework's gen_types universe (incl. str / int mix-ins), parsed "
         "with the empty command line, 3-4 valid and 2-3 invalid command lines (bad token, wrong arity, unknown option), "
         "all compared with the typing-style flat module-scope rendering; the nested member is required, default_factory or "
@@ -381,7 +383,42 @@ def order_fields(fields):
     return [f for f in fields if f["dflt"] == "missing"] + [f for f in fields if f["dflt"] != "missing"]
 
 
+def mk_tree_mod3(rng):
+    """a 3-level chain whose MIDDLE (or leaf) class is the first to mention an enum / the nested dataclass: with one
+    module per class the definition then lives in the middle (leaf) module; every class of the chain has a field"""
+    def with_default(name, ty):
+        f = mk_field(rng, name, ty, False)
+        return f
+
+    plain = lambda: rng.choice([{"k": "int"}, {"k": "str"}, {"k": "list", "item": {"k": "float"}}, {"k": "opt", "inner": {"k": "int"}}])  # noqa: E731
+    en = lambda: {"k": "enum", "cls": rng.choice(sorted(ENUMS))}  # noqa: E731
+    enumish = lambda: rng.choice([en(), {"k": "opt", "inner": en()}, {"k": "list", "item": en()},  # noqa: E731
+                                  {"k": "tuple", "items": [en(), {"k": "int"}]}])
+    classes = []
+    mid_kind = rng.choice(["enum", "enum", "child"])
+    f0 = with_default("f0", plain() if rng.random() < 0.7 else enumish())
+    if mid_kind == "child":
+        cf = order_fields([mk_field(rng, f"g{i}", rng.choice([plain(), enumish()]), False) for i in range(rng.choice([1, 2]))])
+        classes.append({"name": "Child", "fields": cf})
+        f1 = rng.choice([
+            {"name": "kid", "ty": {"k": "dc", "cls": "Child"}, "dflt": "value", "default": "field(default_factory=Child)"},
+            {"name": "kid", "ty": {"k": "opt", "inner": {"k": "dc", "cls": "Child"}, "spell": "optional"}, "dflt": "none",
+             "default": "None"}])
+    else:
+        f1 = with_default("f1", enumish())
+    rest = [with_default(f"f{i}", rng.choice([plain(), enumish(), t_field(rng)])) for i in range(2, 2 + rng.choice([1, 2]))]
+    fields = [f0, f1] + rest
+    segs = [[f0["name"]], [f1["name"]], [f["name"] for f in rest]]
+    if rng.random() < 0.3:                      # the leaf class is the first user instead: swap middle and leaf
+        segs = [segs[0], segs[2], segs[1]]
+        fields = [f0] + rest + [f1]
+    classes.append({"name": "Root", "fields": fields})
+    return {"classes": classes, "root": "Root", "chain": segs, "redeclare": [], "stream": "mod3"}
+
+
 def mk_tree(rng, stream="grammar"):
+    if stream == "mod3":
+        return mk_tree_mod3(rng)
     n = rng.choice([1, 2, 2, 3, 3, 4, 5])
     counter = itertools.count()
     fields = []
@@ -878,6 +915,75 @@ def render_two_modules(tree, style, name_a):
     return src_a, src_b
 
 
+def render_chain_modules(tree, style, mod_names):
+    """one module PER CLASS of the chain (2 or 3 modules): module i defines the i-th class of the chain and imports
+    what it needs from module i-1; every enum / nested dataclass is defined in the module of the FIRST chain class whose
+    annotations mention it (root-most, middle or leaf module), unused ones in the last"""
+    live = live_of(style)
+    by = {c["name"]: c for c in tree["classes"]}
+    root = by[tree["root"]]
+    fmap = {f["name"]: f for f in root["fields"]}
+    fut = "from __future__ import annotations\n" if style.startswith("post_") else ""
+    en_map = enum_names(tree)
+    segs = [list(seg) for seg in tree["chain"]]
+    segs[-1] = segs[-1] + list(tree["redeclare"])
+    everything = list(en_map) + [c["name"] for c in tree["classes"] if c["name"] != tree["root"]]
+    placed = {}
+    for i, seg in enumerate(segs):
+        need = set()
+        for n in seg:
+            need |= names_in(fmap[n]["ty"])
+        for cn in list(need):
+            if cn in by:
+                for f in by[cn]["fields"]:
+                    need |= names_in(f["ty"])
+        for n in need:
+            placed.setdefault(n, i)
+    for n in everything:
+        placed.setdefault(n, len(segs) - 1)
+    srcs, base = [], None
+    need_of = []
+    for i, seg in enumerate(segs):
+        need = set()
+        for n in seg:
+            need |= names_in(fmap[n]["ty"])
+        need_of.append(need)
+    for i, seg in enumerate(segs):
+        last = i == len(segs) - 1
+        lines = []
+        here = [n for n in everything if placed[n] == i]
+        # a module imports ONLY what its own class needs: the base class and the earlier-defined names its annotations
+        # mention (a name defined in the middle module is therefore unknown in the leaf module unless the leaf uses it)
+        wanted = set(need_of[i])
+        for cn in here:
+            if cn in by:
+                for f in by[cn]["fields"]:
+                    wanted |= names_in(f["ty"])
+        if i > 0:
+            lines.append(f"from {mod_names[i - 1]} import {base}")
+        for n in sorted(wanted):
+            if placed[n] < i:
+                lines.append(f"from {mod_names[placed[n]]} import {n}")
+        for n in here:
+            if n in en_map:
+                lines.append(enum_src(en_map[n], as_name=n))
+        for c in tree["classes"]:
+            if c["name"] in here:
+                lines += render_class(c["name"], None, c["fields"], live, "")
+        cname = tree["root"] if last else base_name(tree, i)
+        lines += render_class(cname, base, [fmap[n] for n in seg], live, "")
+        base = cname
+        src = fut + HEADER + "\n".join(lines) + "\n"
+        if last:
+            names = sorted(en_map) + [c["name"] for c in tree["classes"]]
+            src += ("\ndef run(cb):\n    import sys as _sys\n    _ns = {}\n"
+                    f"    for _m in {mod_names!r}:\n"
+                    f"        _ns.update({{k: v for k, v in vars(_sys.modules[_m]).items() if k in {names!r}}})\n"
+                    f"    return cb({tree['root']}, _ns)\n")
+        srcs.append(src)
+    return srcs
+
+
 DECOYS = "".join(enum_src(n, decoy=True) + "\n" for n in ENUMS)
 
 
@@ -1073,6 +1179,21 @@ def impl_e2e(c):
             try:
                 cd.load(src_a, name_a)
                 mod = cd.load(src_b)
+            except BaseException as e:  # noqa: BLE001
+                out["renderings"][key] = {"import_error": type(e).__name__, "msg": str(e)[:200]}
+                continue
+            try:
+                out["renderings"][key] = mod.run(lambda cls, ns: _run_rendering(tree, argvs, cls, ns))
+            except BaseException as e:  # noqa: BLE001
+                out["renderings"][key] = {"import_error": "run:" + type(e).__name__, "msg": str(e)[:200]}
+        # the chain with ONE MODULE PER CLASS (2 or 3 modules), definitions in the module that first needs them
+        for style in STYLES:
+            key = rkey(style, "chainNmod", "module")
+            mod_names = [cd.fresh_name() for _ in tree["chain"]]
+            try:
+                mod = None
+                for src, mn in zip(render_chain_modules(tree, style, mod_names), mod_names):
+                    mod = cd.load(src, mn)
             except BaseException as e:  # noqa: BLE001
                 out["renderings"][key] = {"import_error": type(e).__name__, "msg": str(e)[:200]}
                 continue
@@ -1626,6 +1747,8 @@ def gen(rng, tier):
             stream = "vt"
         elif i % 10 == 5:
             stream = "loc"
+        elif i % 10 in (1, 8):
+            stream = "mod3"
         yield e2e_case(rng, stream)
 
 
@@ -1673,7 +1796,7 @@ def _argv_ok(av, tree):
 
 def neighbours(case, rng):
     for _ in range(30):
-        yield e2e_case(rng, rng.choice(["grammar", "grammar", "d18", "vt", "loc"]))
+        yield e2e_case(rng, rng.choice(["grammar", "grammar", "d18", "vt", "loc", "mod3"]))
 
 
 # ------------------------------------------------------------------------------------------------
